@@ -1,5 +1,7 @@
 package main
 
+import "fmt"
+
 const (
 	pkgV2      = "github.com/google/licenseclassifier/v2"
 	pkgSC      = "github.com/google/licenseclassifier/stringclassifier"
@@ -55,7 +57,7 @@ func plans(id, tier string) (Plan, bool) {
 		return Plan{Level: "exploration", Jobs: []Job{
 			{Pkg: pkgV2, Harness: "c03_small", Shards: pick(6, 16)},
 			{Pkg: pkgV2, Harness: "c03_corpus", Params: "t=0.8", Shards: pick(10, 16)},
-			{Pkg: pkgV2, Harness: "c03_corpus", Params: "t=0.5;families=" + map[bool]string{false: "exact,scenario", true: "exact,edit1,truncate,scenario"}[th], Shards: pick(4, 16)},
+			{Pkg: pkgV2, Harness: "c03_corpus", Params: "t=0.5;families=" + map[bool]string{false: "exact", true: "exact,edit1,truncate,scenario"}[th], Shards: pick(6, 16)},
 			{Pkg: pkgV2, Harness: "c03_bytes", Shards: pick(2, 8)},
 			{Pkg: pkgV2, Harness: "c03_names", Shards: 1},
 		}}, true
@@ -93,10 +95,26 @@ func plans(id, tier string) (Plan, bool) {
 			{Pkg: pkgV2, Harness: "c08_pads", Shards: pick(6, 16)},
 			{Pkg: pkgV2, Harness: "c08_faults", Shards: pick(6, 16)},
 		}}, true
+	case "C10":
+		jobs := []Job{}
+		for sh := 0; sh <= 3; sh++ {
+			ml, shards := pick(2, 3), pick(2, 8)
+			if sh == 3 {
+				ml, shards = pick(3, 4), 16
+			}
+			jobs = append(jobs, Job{Pkg: pkgV2, Harness: "c10_total", Params: fmt.Sprintf("shape=%d;maxlen=%d", sh, ml), Shards: shards, MaxProcs: 2})
+		}
+		jobs = append(jobs, Job{Pkg: pkgV2, Harness: "c10_total", Params: fmt.Sprintf("shape=4;maxlen=%d", pick(1, 2)), Shards: pick(4, 16), MaxProcs: 2})
+		return Plan{Level: "exploration", Jobs: jobs}, true
 	case "C11":
 		return Plan{Level: "exploration", Jobs: []Job{
 			{Pkg: pkgV2, Harness: "c11_tokens", Shards: pick(8, 16)},
 			{Pkg: pkgV2, Harness: "c11_match", Params: "families=exact,scenario" + map[bool]string{false: "", true: ",concat,edit1"}[th], Shards: 16},
+		}}, true
+	case "C12":
+		return Plan{Level: "exploration", Jobs: []Job{
+			{Pkg: pkgV2, Harness: "c12_trees", Shards: pick(4, 16)},
+			{Pkg: pkgV2, Harness: "c12_assets", Shards: 1},
 		}}, true
 	case "C20":
 		return Plan{Level: "model_checking", Jobs: []Job{
